@@ -213,7 +213,7 @@ def decide(token_dump):
             if p.peek() != "Equal":
                 return "ERR"
             p.next()
-            e = "(let %s %s)" % (name, p.expr(0))
+            e = "(let %s _ (decos) %s)" % (name, p.expr(0))
         elif kinds[0] in PROCEDURES:
             p.next()
             if p.peek() != "LeftParen":
